@@ -174,6 +174,7 @@ func (s *TunnelServiceHandler) openReverseTunnel(stream tunnelpb.TunnelService_O
 	s.reverse.add(ch, key)
 	defer s.reverse.remove(ch)
 
+	verifYield("handler.reverse.betweenAdds")
 	rc := s.reverseChannelsForKey(key)
 	rc.add(ch, key)
 	defer rc.remove(ch)
@@ -196,6 +197,7 @@ func (s *TunnelServiceHandler) unregister(ch *tunnelChannel) {
 		return
 	}
 
+	verifYield("handler.unregister.between")
 	s.mu.Lock()
 	rc := s.reverseByKey[k]
 	s.mu.Unlock()
